@@ -59,7 +59,9 @@ def gen(rng, tier, index):
         if long_outage:  # a long outage: the back-off must climb to its cap and stay there
             script.append({"o": "fail", "d": rng.choice([0, 0, 0.5])})
         elif rng.random() < 0.45:
-            script.append({"o": "ok", "d": rng.choice(DGRID), "life": rng.choice(LIFE)})
+            # lifetimes on the coarse grid, or on a 1/16 s grid (exact in binary and in datetime's microseconds)
+            life = rng.choice(LIFE) if rng.random() < 0.65 else rng.randrange(0, 9 * 16) / 16
+            script.append({"o": "ok", "d": rng.choice(DGRID), "life": life})
         else:
             script.append({"o": "fail", "d": rng.choice(DGRID), "exc": rng.choice(["OSError", "OSError", "TimeoutError", "RuntimeError", "ValueError"])})
     yield {
